@@ -73,22 +73,66 @@ theorem honest_identical (z : α) (n : Nat) (frames : List (Frame α)) (d : Defr
 
 /-! ## 2. Totality and constant memory -/
 
-/-- **No panic, no out-of-range index**, for any queue count (0 included) and any frame sequence. -/
-theorem no_panic (z : α) (n : Nat) (frames : List (Frame α)) :
-    ((Defrag.new z n).run frames).isSome = true := by
-  generalize Defrag.new z n = d
-  induction frames generalizing d with
+/-- feeding any frame sequence to a state that satisfies the invariant never panics -/
+theorem run_isSome {hist : List (Frame α)} {d : Defrag α} (hinv : DInv hist d) (frames : List (Frame α)) :
+    (d.run frames).isSome = true := by
+  induction frames generalizing hist d with
   | nil => rfl
   | cons f fs ih =>
     unfold Defrag.run
-    have h := recvFrame_isSome d f
+    have h := recvFrame_isSome hinv f
     split
     · rename_i hn; simp [hn] at h
-    · rename_i d' o _
-      have := ih d'
+    · rename_i d' o h1
+      have := ih (recvFrame_inv hinv h1).1
       split
       · rename_i hn; simp [hn] at this
       · rfl
+
+/-- **No panic**, for any queue count (0 included) and any frame sequence.  `Defrag.run` is `none` as soon as
+one `recv` call reaches a Rust panic site: an out-of-range queue index computed by `select_queue`, or – inside
+`ingest_frame` (`Queue.ingestP`/`Queue.ingestSafe`) – the `usize` subtractions `final_packet_size -
+last_frame_offset` and `expected_frames - 1`, a division by zero (`frame_offset / len`, `div_ceil`), a
+`recv_mask` index `≥ BITMASK_ENTRY_COUNT`, a slice of the assembly buffer out of range, or an overflowing
+`u16` addition. -/
+theorem no_panic (z : α) (n : Nat) (frames : List (Frame α)) :
+    ((Defrag.new z n).run frames).isSome = true := run_isSome (DInv.new z n) frames
+
+/-- **No panic site of `ingest_frame` fires** on any queue state reachable from `Defragmenter::new`, whatever
+frame is ingested (`ingestP = none` is the model of a Rust panic).  Reachable: the queue is a member of the state
+after an arbitrary frame sequence; the frame carries the queue's stream offset, as `select_queue` guarantees. -/
+theorem ingest_no_panic (z : α) (n : Nat) (frames : List (Frame α)) (d : Defrag α) (outs : List (Out α))
+    (hrun : (Defrag.new z n).run frames = some (d, outs)) (q : Queue α) (hq : q ∈ d.queues) (f : Frame α)
+    (hs : f.hdr.streamOff = q.streamOff) : q.ingestP f = some (q.ingest f) := by
+  have key : ∀ (fs : List (Frame α)) (hist : List (Frame α)) (d0 d1 : Defrag α) (os : List (Out α)),
+      DInv hist d0 → d0.run fs = some (d1, os) → ∃ hist', DInv hist' d1 := by
+    intro fs
+    induction fs with
+    | nil =>
+      intro hist d0 d1 os hinv h
+      simp only [Defrag.run, Option.some.injEq, Prod.mk.injEq] at h
+      exact ⟨hist, h.1 ▸ hinv⟩
+    | cons f fs ih =>
+      intro hist d0 d1 os hinv h
+      unfold Defrag.run at h
+      split at h
+      · simp at h
+      · rename_i d' o h1
+        split at h
+        · simp at h
+        · rename_i d'' os' h2
+          simp only [Option.some.injEq, Prod.mk.injEq] at h
+          obtain ⟨rfl, _⟩ := h
+          exact ih (f :: hist) d' d'' os' (recvFrame_inv hinv h1).1 h2
+  obtain ⟨hist', hi⟩ := key frames [] _ d outs (DInv.new z n) hrun
+  exact ingestP_of_inv f (hi q hq) hs
+
+/-- the panic guards are not vacuous: on a queue state that violates the invariant (a stale
+    `last_frame_offset` above `final_packet_size`) the subtraction site fires -/
+example : oneTimeSafe ({
+      streamOff := 0, nextFrameOff := 0, buf := [], recv := [], window := some 256,
+      finalSize := some 300, expected := none, lastOff := some 512, idle := false } : Queue Nat) = false := by
+  decide
 
 /-- **Memory does not grow**: after any frame sequence there are still `n` queues and every reassembly
 buffer still has exactly `MAX_PACKET_SIZE` bytes. -/
@@ -232,6 +276,28 @@ theorem send_fragments (mtu s : Nat) (data : List α) (hmtu : MIN_MTU ≤ mtu)
       · apply fragLoop_fragments s p data (by omega) _ 0 data (by simp) (by simp)
         · rw [Nat.mul_comm]; omega
         · rw [Nat.mul_comm]; omega
+
+/-- **`Fragmenter::send` does not panic** for any data and any MTU `set_mtu` can leave behind: `mtu - SIZE`
+and `data.len() - offset` do not underflow, `div_ceil` does not divide by zero, every slice of `data` is in
+range (`sendP = none` is the model of a Rust panic). -/
+theorem send_no_panic (mtu s : Nat) (data : List α) (hmtu : MIN_MTU ≤ mtu) :
+    sendP mtu s data = some (send mtu s data) := by
+  have key : sendSafe mtu data = true := by
+    unfold sendSafe
+    split
+    · rfl
+    · split
+      · rfl
+      · have hmm : HEADER_SIZE < MIN_MTU := by decide
+        have h1 : HEADER_SIZE ≤ mtu := by omega
+        have hp : 0 < mtu - HEADER_SIZE := by omega
+        simp only [h1, hp, decide_true, Bool.true_and, List.all_eq_true, List.mem_range, decide_eq_true_eq]
+        intro i hi
+        generalize mtu - HEADER_SIZE = p at *
+        have h2 : (i + 1) * p ≤ data.length + p - 1 := (Nat.le_div_iff_mul_le hp).mp hi
+        rw [Nat.add_mul, Nat.one_mul] at h2
+        omega
+  simp [sendP, key]
 
 /-- `set_mtu` clamps into the range for which `send_fragments` holds -/
 theorem clampMtu_range (mtu : Nat) : MIN_MTU ≤ clampMtu mtu ∧ clampMtu mtu ≤ MAX_MTU := by
